@@ -808,6 +808,35 @@ fn check_case(sup: &mut Sup, rng: &mut Rng, n: usize, tier: &str, stats: &mut St
         }
     };
     compare("queries", &full, &ans_full, fails);
+    for (k, a) in ans_full.iter().enumerate() {
+        if let Ans::Line(l) = a {
+            if !l.starts_with("O ") {
+                continue;
+            }
+            let get = |name: &str| -> i64 { l.split(' ').find_map(|f| f.strip_prefix(name)).and_then(|v| v.parse().ok()).unwrap_or(-1) };
+            let (done, pages, per, total, cur) = (get("cand_CheckDone="), get("cand_TotalPage="), get("cand_ChoicePerPage="), get("cand_TotalChoice="), get("cand_CurrentPage="));
+            if done == 0 && per > 0 {
+                let enumerated = l.split(' ').find_map(|f| f.strip_prefix("cand_Enumerate=")).map(|v| if v.is_empty() { 0 } else { v.split(',').count() as i64 }).unwrap_or(-1);
+                let mut what = String::new();
+                if pages != (total + per - 1) / per {
+                    what = format!("page count {} for {} candidates at {} per page", pages, total, per);
+                } else if (total > 0 && cur >= pages) || (total == 0 && cur != 0) {
+                    what = format!("current page {} of {}", cur, pages);
+                } else if enumerated >= 0 && enumerated != total - cur * per {
+                    // chewing_cand_Enumerate starts at the first candidate of the current page
+                    what = format!("{} candidates enumerated from page {} of a list of {} at {} per page", enumerated, cur, total, per);
+                }
+                if !what.is_empty() {
+                    fails.push(Failure {
+                        signature: "paging".into(),
+                        detail: format!("case {}: after `{}`: {}", n, full[..k].iter().rev().find(|b| !b[0].contains(" obs ")).map(|b| b[0].clone()).unwrap_or_default(), what),
+                        ops: full[..=k].iter().flatten().cloned().collect(),
+                    });
+                    break;
+                }
+            }
+        }
+    }
 
     // ---- rand: random query subsets at random places
     let mut rnd = vec!["A new".to_string()];
@@ -887,12 +916,15 @@ fn check_case(sup: &mut Sup, rng: &mut Rng, n: usize, tier: &str, stats: &mut St
     let h2len = 10 + rng.below(30) as usize;
     let h2 = gen_history(rng, h2len, false, false);
     let mut rs = vec!["A new".to_string(), "A seti chewing.disable_auto_learn_phrase 1".to_string()];
-    rs.extend(with_ctx("A", &prefix).into_iter().filter(|o| !o.contains("disable_auto_learn") && !o.contains("autoLearn")));
+    // nothing in the reset pair may write the user dictionary: auto-learning is off, Ctrl-number (add the
+    // phrase before the cursor) is left out
+    let quiet = |o: &String| !o.contains("disable_auto_learn") && !o.contains("autoLearn") && !o.contains(" ctrl ");
+    rs.extend(with_ctx("A", &prefix).into_iter().filter(quiet));
     let cut = rs.len();
     rs.push("A api reset".into());
     rs.extend(with_ctx("A", &conf));
     let body_from = rs.len();
-    for o in with_ctx("A", &h2).into_iter().filter(|o| !o.contains("disable_auto_learn") && !o.contains("autoLearn")) {
+    for o in with_ctx("A", &h2).into_iter().filter(quiet) {
         rs.push(o);
         rs.push("A obs all".into());
     }
